@@ -283,6 +283,22 @@ class HyperNode(ABC):
         """
         return None
 
+    def get_input_types(self, param: str) -> list[type | None]:
+        """Every type a value fed to this input must satisfy.
+
+        One entry for an ordinary node; a GraphNode hands the value to every
+        inner consumer of the parameter and returns one entry per consumer.
+        """
+        return [self.get_input_type(param)]
+
+    def get_output_types(self, output: str) -> list[type | None]:
+        """Every type this output can carry.
+
+        One entry for an ordinary node; a GraphNode returns one entry per inner
+        producer of the output (exclusive branches may produce the same name).
+        """
+        return [self.get_output_type(output)]
+
     def map_inputs_to_params(self, inputs: dict[str, Any]) -> dict[str, Any]:
         """Map renamed input names to original function parameter names.
 
